@@ -5,7 +5,7 @@ CONSTANTS
   Clip3s = {0, 2}
   ReadLens = {9, 10, 11}
   FlankIds = {1, 2, 3, 4}
-  FlankPairs = "all"
+  FlankPairs = "diag"
   MMBases = {"A", "C", "G", "T"}
   XBases = {"A", "C", "G", "T"}
   Protos = {"nla", "chic"}
